@@ -100,6 +100,14 @@ def bytes_models(I, st, caller, func, args, argtys, dest_ty):
             ok = z3.And(a <= b, b <= sl.length)
             return fork(I, st, ok, lambda s2: [Outcome("return", mk_option(True, SymSlice(sl.base, z3.simplify(sl.off + a), z3.simplify(b - a))), s2)],
                         lambda s3: [Outcome("return", mk_option(False), s3)])
+        if op in ("split_at", "split_at_checked", "split_first_chunk"):
+            mid = args[1]
+            if op == "split_first_chunk":
+                raise Unencodable("split_first_chunk")
+            pair = lambda s2: Agg("tuple", None, (SymSlice(sl.base, sl.off, z3.simplify(mid)), SymSlice(sl.base, z3.simplify(sl.off + mid), z3.simplify(sl.length - mid))))
+            if op == "split_at":
+                return fork(I, st, mid <= sl.length, lambda s2: [Outcome("return", pair(s2), s2)], lambda s3: [Outcome("panic", None, s3, "slice index out of range (split_at: mid > len)")])
+            return fork(I, st, mid <= sl.length, lambda s2: [Outcome("return", mk_option(True, pair(s2)), s2)], lambda s3: [Outcome("return", mk_option(False), s3)])
         if op == "to_vec":
             return ret(st, sl)
         if op in ("chunks_exact", "chunks"):
